@@ -1,8 +1,8 @@
 (* C10 - normal forms and Boolean quantifier elimination: statements only. *)
 From Coq Require Import List ZArith Bool String Reals Permutation.
 From PySMT.core Require Import Syntax Sem.
-From PySMT.models Require Import Oracles C10Local Nnf Aig Partition Qelim TimesDist PropTop.
-From PySMT.proofs Require Import C10Local_proofs Nnf_proofs Aig_proofs Partition_proofs Qelim_proofs TimesDist_proofs PropTop_proofs.
+From PySMT.models Require Import Oracles C10Local Nnf Aig Partition Qelim TimesDist PropTop Prenex.
+From PySMT.proofs Require Import C10Local_proofs Nnf_proofs Aig_proofs Partition_proofs Qelim_proofs TimesDist_proofs PropTop_proofs Prenex_proofs.
 Import ListNotations.
 
 (* ---------------- NNF ---------------- *)
@@ -12,13 +12,9 @@ Print Assumptions C10_nnf_equiv.
 Theorem C10_nnf_holds : forall t I, holds I (nnf t) <-> holds I t.
 Proof. exact nnf_holds. Qed.
 Print Assumptions C10_nnf_holds.
-(* full shape clause [forall t, boolish t = true -> nnf_shape (nnf t) = true] is FALSE of the model: *)
-Theorem C10_nnf_shape_refuted : exists t, boolish t = true /\ nnf_shape (nnf t) = false.
-Proof. exact nnf_shape_refuted. Qed.
-Print Assumptions C10_nnf_shape_refuted.
-Theorem C10_nnf_shape_partial : forall t, boolish t = true -> no_neg_ite true t = true -> nnf_shape (nnf t) = true.
-Proof. exact nnf_shape_partial. Qed.
-Print Assumptions C10_nnf_shape_partial.
+Theorem C10_nnf_shape : forall t, boolish t = true -> nnf_shape (nnf t) = true.
+Proof. exact nnf_shape_thm. Qed.
+Print Assumptions C10_nnf_shape.
 
 (* ---------------- AIG ---------------- *)
 Theorem C10_aig_equiv : forall t I, wf_interp I -> boolish t = true -> eval I (aig t) = eval I t.
@@ -79,8 +75,16 @@ Theorem C10_proptop_refuted :
 Proof. exact proptop_refuted. Qed.
 Print Assumptions C10_proptop_refuted.
 
-(* ---------------- prenex normal form ----------------
-   NOT modelled in Coq in this round (full statement, for the record):
-     forall t I, wf_interp I -> boolish t = true -> atoms_qf t = true -> fresh names unused in t ->
-       eval I (prenex t) = eval I t  /\  prenex_shape (prenex t) = true
-   carried by the SEARCH oracle only (harness/c10.py: run_prenex). *)
+(* ---------------- prenex normal form ---------------- *)
+Theorem C10_prenex_shape : forall n t r, pq_frag t = true -> prenex n t = Some r -> prenex_shape r = true.
+Proof. exact prenex_shape_thm. Qed.
+Print Assumptions C10_prenex_shape.
+(* full semantic clause (NOT proved; carried by correspondence + reference-evaluator oracle):
+     forall n t r I, wf_interp I -> pq_frag t = true -> boolish t = true ->
+       (no symbol of t is named "FV<k>", k >= n) -> (bound variables have inhabited sorts) ->
+       prenex n t = Some r -> eval I r = eval I t
+   proved part: quantifier-free inputs *)
+Theorem C10_prenex_equiv_partial : forall n t, is_qf t = true -> pq_frag t = true ->
+  exists r, prenex n t = Some r /\ forall I, holds I r <-> holds I t.
+Proof. exact prenex_equiv_partial. Qed.
+Print Assumptions C10_prenex_equiv_partial.
